@@ -2,6 +2,7 @@ package main
 
 import (
 	"fmt"
+	"go/token"
 	"go/types"
 	"regexp"
 	"sort"
@@ -27,44 +28,54 @@ type dispatchInfo struct {
 	Loops    int
 }
 
-// findDispatch locates `for _, h := range l.handlers { resp, stop = h(req, resp); if stop {break} }`.
+// findDispatch locates `for _, h := range l.handlers { resp, stop = h(req, resp); if stop {break} }`
+// in fn or in a helper explored inline from it. The structural checks are made
+// in the function that holds the loop; Stub and Req may therefore be
+// parameters of that helper (consumers relate them to fn with staticOrigins).
 func findDispatch(c *Ctx, fn *ssa.Function, handlersField string) *dispatchInfo {
 	di := &dispatchInfo{Fn: fn}
-	info := InfoOf(fn)
 	var dyn []*ssa.Call
-	for _, b := range fn.Blocks {
-		for _, in := range b.Instrs {
-			if call, ok := in.(*ssa.Call); ok && !call.Call.IsInvoke() && call.Call.StaticCallee() == nil {
-				if _, isB := call.Call.Value.(*ssa.Builtin); !isB {
-					dyn = append(dyn, call)
-				}
+	eachInstr(fn, func(in ssa.Instruction) {
+		if call, ok := in.(*ssa.Call); ok && !call.Call.IsInvoke() && call.Call.StaticCallee() == nil {
+			if _, isB := call.Call.Value.(*ssa.Builtin); !isB {
+				dyn = append(dyn, call)
 			}
 		}
-	}
-	di.Loops = len(info.LoopOf)
+	})
 	if len(dyn) != 1 {
+		di.Loops = len(InfoOf(fn).LoopOf)
 		di.Problems = append(di.Problems, fmt.Sprintf("expected exactly one dynamic handler call, found %d", len(dyn)))
 		return di
 	}
 	call := dyn[0]
 	di.Call = call
-	// callee value: element of l.handlers indexed by the range index
+	g := call.Parent() // the function holding the loop
+	info := InfoOf(g)
+	di.Loops = len(info.LoopOf)
+	// callee value: element of l.handlers indexed by the loop index
 	calleeOK := false
 	if ld, ok := call.Call.Value.(*ssa.UnOp); ok {
-		if ia, ok := ld.X.(*ssa.IndexAddr); ok && isRangeIndex(ia.Index) {
-			if sl, ok := ia.X.(*ssa.UnOp); ok {
-				if fa, ok := sl.X.(*ssa.FieldAddr); ok {
-					if f := fieldOf(fa.X.Type(), fa.Field); f != nil && f.Name() == handlersField {
-						if p, ok := fa.X.(*ssa.Parameter); ok && p == fn.Params[0] {
-							calleeOK = true
-						}
-					}
+		if ia, ok := ld.X.(*ssa.IndexAddr); ok && (isRangeIndex(ia.Index) || countedIndexPhi(ia.Index) != nil) {
+			// the slice indexed is l.handlers (read once, possibly handed to the helper as an argument)
+			okSlice, _ := staticOrigins(c, fn, ia.X, func(v ssa.Value) bool {
+				sl, ok := v.(*ssa.UnOp)
+				if !ok {
+					return false
 				}
-			}
+				fa, ok := sl.X.(*ssa.FieldAddr)
+				if !ok {
+					return false
+				}
+				f := fieldOf(fa.X.Type(), fa.Field)
+				p, isParam := fa.X.(*ssa.Parameter)
+				return f != nil && f.Name() == handlersField && isParam && len(p.Parent().Params) > 0 && p == p.Parent().Params[0] &&
+					p.Parent().Signature.Recv() != nil && fn.Signature.Recv() != nil && types.Identical(p.Type(), fn.Params[0].Type())
+			})
+			calleeOK = okSlice
 		}
 	}
 	if !calleeOK {
-		di.Problems = append(di.Problems, "handler call is not `range l."+handlersField+"` element indexed by the range index")
+		di.Problems = append(di.Problems, "handler call is not the element of l."+handlersField+" selected by the loop index")
 	}
 	// loop membership
 	var hdr int = -1
@@ -80,9 +91,9 @@ func findDispatch(c *Ctx, fn *ssa.Function, handlersField string) *dispatchInfo 
 		di.Problems = append(di.Problems, "handler call is not inside a loop")
 		return di
 	}
-	hb := fn.Blocks[hdr]
-	if !strings.HasPrefix(hb.Comment, "rangeindex.") {
-		di.Problems = append(di.Problems, "dispatch loop is not a range loop ("+hb.Comment+")")
+	hb := g.Blocks[hdr]
+	if !strings.HasPrefix(hb.Comment, "rangeindex.") && CountedLoopAt(g, hdr) == nil {
+		di.Problems = append(di.Problems, "dispatch loop is neither a range loop nor a counted loop ("+hb.Comment+")")
 	}
 	if len(call.Call.Args) != 2 {
 		di.Problems = append(di.Problems, "handler call does not have two arguments")
@@ -99,16 +110,18 @@ func findDispatch(c *Ctx, fn *ssa.Function, handlersField string) *dispatchInfo 
 	for i, e := range ph.Edges {
 		pred := hb.Preds[i]
 		if info.LoopOf[hdr][pred.Index] {
-			ex, ok := e.(*ssa.Extract)
-			if !ok || ex.Tuple != call || ex.Index != 0 {
-				di.Problems = append(di.Problems, "loop-carried response is not result #0 of the handler call")
+			for _, leaf := range phiLeaves(e, ph) {
+				ex, ok := leaf.(*ssa.Extract)
+				if !ok || ex.Tuple != call || ex.Index != 0 {
+					di.Problems = append(di.Problems, "loop-carried response is not result #0 of the handler call")
+				}
 			}
 		} else {
 			di.Stub = e
 		}
 	}
 	// the request argument must be loop-invariant
-	if dv, ok := di.Req.(ssa.Instruction); ok && info.LoopOf[hdr][dv.Block().Index] {
+	if dv, ok := di.Req.(ssa.Instruction); ok && dv.Parent() == g && info.LoopOf[hdr][dv.Block().Index] {
 		di.Problems = append(di.Problems, "request argument is recomputed inside the loop")
 	}
 	// the If after the call: stop => leave the loop; !stop => next iteration
@@ -125,14 +138,25 @@ func findDispatch(c *Ctx, fn *ssa.Function, handlersField string) *dispatchInfo 
 		if info.LoopOf[hdr][cb.Succs[0].Index] {
 			di.Problems = append(di.Problems, "stop == true does not leave the dispatch loop")
 		}
-		if cb.Succs[1] != hb {
-			di.Problems = append(di.Problems, "stop == false does not continue with the next handler")
+		// stop == false continues with the next handler: straight to the header, or through the
+		// loop's increment block (counted loops) - a block inside the loop without calls
+		nxt := cb.Succs[1]
+		if nxt != hb {
+			okNext := info.LoopOf[hdr][nxt.Index] && len(nxt.Succs) == 1 && nxt.Succs[0] == hb
+			for _, in := range nxt.Instrs {
+				if _, isCall := in.(ssa.CallInstruction); isCall {
+					okNext = false
+				}
+			}
+			if !okNext {
+				di.Problems = append(di.Problems, "stop == false does not continue with the next handler")
+			}
 		}
 	}
 	// exits of the loop: only header (exhaustion) and the stop edge
 	var exitBlk *ssa.BasicBlock
 	for bi := range info.LoopOf[hdr] {
-		for _, s := range fn.Blocks[bi].Succs {
+		for _, s := range g.Blocks[bi].Succs {
 			if !info.LoopOf[hdr][s.Index] {
 				if bi != hdr && bi != cb.Index {
 					di.Problems = append(di.Problems, fmt.Sprintf("dispatch loop has an extra exit from block %d", bi))
@@ -146,7 +170,7 @@ func findDispatch(c *Ctx, fn *ssa.Function, handlersField string) *dispatchInfo 
 	}
 	// any other instruction with effects in the loop body? calls other than the handler call
 	for bi := range info.LoopOf[hdr] {
-		for _, in := range fn.Blocks[bi].Instrs {
+		for _, in := range g.Blocks[bi].Instrs {
 			if cc, ok := in.(ssa.CallInstruction); ok && in != ssa.Instruction(call) {
 				if _, isB := cc.Common().Value.(*ssa.Builtin); !isB {
 					di.Problems = append(di.Problems, "dispatch loop body contains another call: "+in.String())
@@ -238,20 +262,18 @@ func analyseHandle4(c *Ctx) *h4 {
 		return nil
 	}
 	h := &h4{fn: fn}
-	for _, b := range fn.Blocks {
-		for _, in := range b.Instrs {
-			if call, ok := in.(*ssa.Call); ok {
-				if f := call.Call.StaticCallee(); f != nil {
-					switch f.String() {
-					case pkgDHCP4 + ".FromBytes":
-						h.fromB = call
-					case pkgDHCP4 + ".NewReplyFromRequest":
-						h.newReply = call
-					}
+	eachInstr(fn, func(in ssa.Instruction) {
+		if call, ok := in.(*ssa.Call); ok {
+			if f := call.Call.StaticCallee(); f != nil {
+				switch f.String() {
+				case pkgDHCP4 + ".FromBytes":
+					h.fromB = call
+				case pkgDHCP4 + ".NewReplyFromRequest":
+					h.newReply = call
 				}
 			}
 		}
-	}
+	})
 	if h.fromB == nil || h.newReply == nil {
 		c.R.Fatalf("ANCHOR-UNRESOLVED: HandleMsg4 does not call dhcpv4.FromBytes / NewReplyFromRequest")
 		return nil
@@ -351,6 +373,9 @@ func ruleV4Filter(c *Ctx, rule string) {
 				nn = 1
 			} else if ns == 1 {
 				nn = 0
+			}
+			if nn == -1 {
+				nn = chainResultNonNil(c, h.fn, h.di, e.St)
 			}
 		}
 		v := and3(p, o, r, m, nn)
@@ -454,8 +479,12 @@ func ruleV4TypeMap(c *Ctx, rule string) {
 	}
 	// no other first-party code retypes a reply
 	others := 0
+	partOf := map[*ssa.Function]bool{}
+	for _, f := range inlineFuncs(h.fn) {
+		partOf[f] = true // helpers extracted from HandleMsg4 are HandleMsg4
+	}
 	for _, fn := range c.P.SrcFuncs() {
-		if fn == h.fn || isFixture(fn) {
+		if partOf[fn] || isFixture(fn) {
 			continue
 		}
 		for _, b := range fn.Blocks {
@@ -483,18 +512,29 @@ func ruleV4Stub(c *Ctx, rule string) {
 	pos := c.P.InstrPos(h.newReply)
 	var probs []string
 	// NewReplyFromRequest(req) with req = FromBytes #0
-	if ex, ok := h.newReply.Call.Args[0].(*ssa.Extract); !ok || ex.Tuple != ssa.Value(h.fromB) || ex.Index != 0 {
+	// (a nil constant among the origins is a helper's failure return: whether nil can reach the chain
+	// is decided path-sensitively by C01.STUBNONNIL)
+	isResult := func(call *ssa.Call) func(v ssa.Value) bool {
+		return func(v ssa.Value) bool {
+			if isNilConst(v) {
+				return true
+			}
+			ex, ok := v.(*ssa.Extract)
+			return ok && ex.Tuple == ssa.Value(call) && ex.Index == 0
+		}
+	}
+	if ok, _ := staticOrigins(c, h.fn, h.newReply.Call.Args[0], isResult(h.fromB)); !ok {
 		probs = append(probs, "NewReplyFromRequest is not applied to the parsed datagram")
 	}
 	// FromBytes(buf) with buf = parameter
 	if h.di == nil || len(h.di.Problems) > 0 || h.di.Stub == nil {
 		probs = append(probs, "dispatch loop not recognised")
 	} else {
-		if ex, ok := h.di.Stub.(*ssa.Extract); !ok || ex.Tuple != ssa.Value(h.newReply) || ex.Index != 0 {
-			probs = append(probs, "the response handed to the first handler is not result #0 of NewReplyFromRequest")
+		if ok, why := staticOrigins(c, h.fn, h.di.Stub, isResult(h.newReply)); !ok {
+			probs = append(probs, "the response handed to the first handler is not result #0 of NewReplyFromRequest: "+why)
 		}
-		if ex, ok := h.di.Req.(*ssa.Extract); !ok || ex.Tuple != ssa.Value(h.fromB) || ex.Index != 0 {
-			probs = append(probs, "the request handed to handlers is not the parsed datagram")
+		if ok, why := staticOrigins(c, h.fn, h.di.Req, isResult(h.fromB)); !ok {
+			probs = append(probs, "the request handed to handlers is not the parsed datagram: "+why)
 		}
 	}
 	// library fact: NewReplyFromRequest echoes xid, htype, chaddr, flags, giaddr, option 82/61 and sets BOOTREPLY
@@ -605,8 +645,8 @@ func ruleV4IdentityRO(c *Ctx, rule string) {
 
 func ruleSentIsChainResult(c *Ctx, rule string, fn *ssa.Function, di *dispatchInfo) {
 	n := 0
-	for _, b := range fn.Blocks {
-		for _, in := range b.Instrs {
+	for _, in := range viewInstrs(fn) {
+		{
 			if isSendSite(in) == "" {
 				continue
 			}
@@ -617,9 +657,12 @@ func ruleSentIsChainResult(c *Ctx, rule string, fn *ssa.Function, di *dispatchIn
 				c.R.unk(rule, key, c.P.InstrPos(in), shortFn(fn), "cannot identify the serialised value / dispatch loop")
 				continue
 			}
-			ok, why := originsWithin(sv, func(v ssa.Value) bool {
+			ok, why := staticOrigins(c, fn, sv, func(v ssa.Value) bool {
 				if v == ssa.Value(di.ExitPhi) {
 					return true
+				}
+				if isNilConst(v) {
+					return true // a helper's failure return; a nil response is never sent (FILTER: resp ≠ nil)
 				}
 				// v6: re-encapsulated relay reply built from the chain result
 				if ex, ok := v.(*ssa.Extract); ok && ex.Index == 0 {
@@ -1012,4 +1055,35 @@ func isFlagInterface(c *Ctx, k *ssa.Const) bool {
 	}
 	v, ok := c.P.constOf(t.Obj().Pkg().Path(), "FlagInterface")
 	return ok && v == constStr(k)
+}
+
+// chainResultNonNil: what the path decided about "the dispatch loop's exit
+// value != nil" (1 non-nil, 0 nil, -1 not decided), found as a decided nil
+// test whose operand is, statically, the loop's exit value (possibly handed
+// back through the helper that holds the loop).
+func chainResultNonNil(c *Ctx, fn *ssa.Function, di *dispatchInfo, st *State) int {
+	for _, k := range sortedKeys(st.hist) {
+		f := st.hist[k]
+		if f.Kind != "nil" || f.At == nil {
+			continue
+		}
+		iff, ok := f.At.(*ssa.If)
+		if !ok {
+			continue
+		}
+		cmp, ok := iff.Cond.(*ssa.BinOp)
+		if !ok || (cmp.Op != token.EQL && cmp.Op != token.NEQ) {
+			continue
+		}
+		v := cmp.X
+		if isNilConst(cmp.X) {
+			v = cmp.Y
+		} else if !isNilConst(cmp.Y) {
+			continue
+		}
+		if ok, _ := staticOrigins(c, fn, v, func(x ssa.Value) bool { return x == ssa.Value(di.ExitPhi) }); ok {
+			return b2i(!f.Val)
+		}
+	}
+	return -1
 }
